@@ -84,6 +84,8 @@ var checks = map[string]*check{
 			// establishments interleaved with traffic on the main and on earlier brokered connections
 			{Name: "with-traffic-single", Kind: "explore", Scen: "grpcmux_seq", Inst: inst("traffic-single", "traffic-single"), Depths: depths([]int{2}, []int{2, 3}), Budget: budget(2*time.Minute, 10*time.Minute)},
 			{Name: "with-traffic-pairs", Kind: "explore", Scen: "grpcmux_seq", Inst: inst("traffic-pairs", "traffic-pairs"), Depths: depths([]int{1}, []int{1, 2}), Budget: budget(3*time.Minute, 15*time.Minute)},
+			// each established id is dialled a second time while its listener is serving
+			{Name: "redial", Kind: "explore", Scen: "grpcmux_seq", Inst: inst("redial", "redial"), Depths: depths([]int{1}, []int{1, 2}), Budget: budget(2*time.Minute, 10*time.Minute)},
 			{Name: "conformance", Kind: "conform", Scen: "grpcmux_seq"},
 		},
 	},
@@ -100,6 +102,9 @@ var checks = map[string]*check{
 		},
 		Parts: []part{
 			{Name: "lines", Kind: "explore", Scen: "start_line", BatchN: 400, Depths: depths([]int{0}, []int{0}), Budget: budget(5*time.Minute, 40*time.Minute)},
+			// reported address / protocol / version against real processes behind the default command runner
+			// (whose address translation the scripted runner of the enumeration does not exercise) and a custom runner
+			{Name: "real-processes", Kind: "enum", Bin: "e3.test", Test: "TestC01Proc"},
 		},
 	},
 	"C05": {
